@@ -57,6 +57,18 @@ def _undeclared_project():
         ))
 
 
+def _vanish_project():
+    """A step removes a declared static file that is a recorded glob match while the build runs (a
+    file-system deletion during the build phase); the consumer of that file then finds its input gone."""
+    return e3.Project(
+        sources={"data/a.txt": "aaa", "data/b.txt": "bbb"},
+        program={"scripts": {"plan.py": [
+            {"op": "step", "label": "slow", "inp": [], "out": ["slow.txt"]},
+            {"op": "glob", "pattern": "data/*.txt", "static": True,
+             "foreach": [{"op": "step", "label": "cat {m}", "inp": ["{m}", "slow.txt"], "out": ["{stem}.out"]}]},
+        ]}, "commands": {"slow": [{"op": "remove", "path": "data/a.txt"}, {"op": "auto"}]}})
+
+
 def W(path, content):
     return {"op": "write", "path": path, "content": content}
 
@@ -82,6 +94,12 @@ NAMED = {
     "output-deleted": (_base_project, [[X("o1.txt")]]),
     "output-tampered": (_base_project, [[W("o2.txt", "tampered")]]),
     "STALE-new-match-then-directory-moved": (_base_project, [[W("d1/z.dat", "z"), {"op": "move", "src": "d1", "dst": "d9"}]]),
+    # events while the build runs / unchanged re-hashes of deleted paths
+    "static-match-removed-by-step-during-build": (_vanish_project, [[]]),
+    "static-match-removed-by-step-then-recreated": (_vanish_project, [[W("data/a.txt", "aaa")]]),
+    "glob-match-delete-then-recreate-same": (_base_project, [[X("d1/x.dat"), W("d1/x.dat", "x")]]),
+    "glob-match-moved-away-and-back": (_base_project, [[{"op": "move", "src": "d1/x.dat", "dst": "d1/x.bak"},
+                                                        {"op": "move", "src": "d1/x.bak", "dst": "d1/x.dat"}]]),
     "D10d-file-in-new-directory": (_wild_project, [[W("d5/x.dat", "x")]]),
     "D15-undeclared-input-appears": (_undeclared_project, [[W("nothere.txt", "N")]]),
 }
@@ -188,6 +206,24 @@ def run_case(project: e3.Project, phases: list, **kw) -> list:
                 res["diff"] = [{"field": "error", "key": "", "a": rec.get("watch_error"), "b": restart.error}]
             out.append(res)
     return out
+
+
+def diff_signature(diff):
+    """Fields that differ + the first graph difference in words (kind of node, states / presence)."""
+    fields = "+".join(sorted({d["field"] for d in diff}))
+    for d in diff:
+        if d["field"] != "graph":
+            continue
+        kind = str(d["key"]).split(":")[0]
+        a, b = d.get("a"), d.get("b")
+        if a is None or b is None:
+            return f"{fields}:{kind}-only-in-{'restart' if a is None else 'watch'}"
+        sa = (a.get("props", {}).get("state") or ["?"])[0]
+        sb = (b.get("props", {}).get("state") or ["?"])[0]
+        if sa != sb:
+            return f"{fields}:{kind}-{sa}-vs-{sb}"
+        return f"{fields}:{kind}-differs"
+    return fields
 
 
 def short_diff(diff, limit=4):
